@@ -1,5 +1,6 @@
 import DL.Model.CFRules
 import DL.Lemmas.CFSound7
+import DL.Lemmas.CFClaims11
 
 /-!
 # C11 — getter-return and no-fallthrough never miss a path that falls off the end
@@ -73,5 +74,127 @@ example :
       (.cons (.ret 22 .nil) .nil))) (.cons (.expr (.ident "c") .nil) .nil) false
     s.inF = true ∧ s.positions.Nodup ∧ (s.compl []).n = true ∧
       stopsEnd ((visitStmt s { sc := {}, info := Info.empty }).info.endAt s.pos) = false := by decide
+
+/-! ## the rule layers, composed with the invariant (whole programs of the fragment)
+
+`Program.stopViol`, `getterReported`, `stmtsStop`/`caseReported` read the *final* metadata at keys anywhere inside the
+program.  `DL.Lemmas.CFClaims*` show that what a visit records under the keys of a piece of syntax is never touched again
+(`Stmt.info_frame`, unconditional), except the key of a loop body, which is re-used for the end of the loop (and is
+filtered out by `stopViol`), and transport the facts established when each statement was visited to the final map. -/
+
+/-- **`stopViol` (C11, statement form, whole programs).**  `Program.stopViol` is *not* conditioned on reachability (see the
+example below: a dead `if` records the inherited forced end), so it is not empty in general.  The strongest true
+statement: every statement whose metadata says "stops" although it can complete normally was visited after its scope
+had ended — it is marked `unreachable` by the analyzer, and it is unreachable in the reference semantics. -/
+theorem C11_stopViol (prog : Program) (hf : itemsInF prog.items = true) (hnd : (itemsPositions prog.items).Nodup) (p : Nat)
+    (hp : p ∈ prog.stopViol (analyze prog)) : (analyze prog).ur p = true ∧ prog.reachable p = false := by
+  have h := (program_claims prog hf hnd).sv p hp
+  refine ⟨h, program_ur_unreachable prog hf hnd p ?_ h⟩
+  rw [stopViol_items] at hp
+  exact itemsStopViol_upos _ _ p hp
+
+/-- …in particular there is no violation at all when the analyzer marks no statement `unreachable` -/
+theorem C11_stopViol_nil (prog : Program) (hf : itemsInF prog.items = true) (hnd : (itemsPositions prog.items).Nodup)
+    (hno : ∀ q, (analyze prog).ur q = false) : prog.stopViol (analyze prog) = [] := by
+  cases h : prog.stopViol (analyze prog) with
+  | nil => rfl
+  | cons q r =>
+    have := (C11_stopViol prog hf hnd q (by rw [h]; simp)).1
+    rw [hno q] at this; cases this
+
+/-- **`getter-return` is never silent on a body that can fall off its end.**  For every function scope with a body block
+occurring anywhere in a program of the fragment (`Program.getters`): if the rule does not report it, the body cannot
+complete normally. -/
+theorem C11_getter (prog : Program) (hf : itemsInF prog.items = true) (hnd : (itemsPositions prog.items).Nodup) (g : Getter)
+    (hg : g ∈ prog.getters) (hrep : getterReported (analyze prog) g = false) : g.body.compl.n = false := by
+  refine (program_claims prog hf hnd).gv g hg ?_
+  unfold getterReported at hrep
+  unfold metaStops
+  cases h : (analyze prog) g.bodyP with
+  | none => rw [h] at hrep; cases hrep
+  | some m =>
+    rw [h] at hrep
+    simp only at hrep ⊢
+    rw [stops_iff_not_continues, hrep]; rfl
+
+/-- **`no-fallthrough`: a stopping statement silences the rule only when the case cannot fall through.**  For every case
+`(sp, body)` of a `switch` statement at `sp` occurring anywhere in a program of the fragment (`Program.swCases`), if the
+`switch` is reachable (every case of a reached `switch` can be entered, `Cases.reach`) and some statement of the body has
+metadata that stops (`stmtsStop`), then the body cannot complete normally. -/
+theorem C11_case (prog : Program) (hf : itemsInF prog.items = true) (hnd : (itemsPositions prog.items).Nodup)
+    (c : Nat × Stmts) (hc : c ∈ prog.swCases) (hreach : prog.reachable c.1 = true)
+    (hst : stmtsStop (analyze prog) c.2 = true) : c.2.compl.n = false := by
+  cases hn : c.2.compl.n with
+  | false => rfl
+  | true =>
+    have hur := (program_claims prog hf hnd).cv c hc hst hn
+    have := program_ur_unreachable prog hf hnd c.1 (itemsSwCases_upos _ c hc) hur
+    rw [this] at hreach; cases hreach
+
+/-- the positions of the cases of a `switch` -/
+def casePositions : Cases → List Nat
+  | .nil => []
+  | .cons p _ _ _ r => p :: casePositions r
+
+/-- the reachability hypothesis of `C11_case` is about the `switch` statement: in the reference semantics every case of a
+reached `switch` can be entered directly -/
+theorem switch_reaches_every_case (sp : Nat) (d : Kids) : ∀ (cs : Cases) (cp : Nat), cp ∈ casePositions cs →
+    (Stmt.switchS sp d cs).reach cp = true
+  | .nil, cp, h => by simp [casePositions] at h
+  | .cons p dflt t b r, cp, h => by
+    simp only [casePositions, List.mem_cons] at h
+    rcases h with h | h
+    · simp [Stmt.reach, Cases.reach, h]
+    · have := switch_reaches_every_case sp d r cp h
+      simp only [Stmt.reach, Bool.or_eq_true, beq_iff_eq] at this
+      rcases this with h' | h'
+      · simp [Stmt.reach, h']
+      · simp [Stmt.reach, Cases.reach, h']
+
+/-- …in terms of the rule: a non-empty case without fall-through comment that can fall through is reported -/
+theorem C11_case_reported (prog : Program) (hf : itemsInF prog.items = true) (hnd : (itemsPositions prog.items).Nodup)
+    (sp : Nat) (c : SwCase) (hc : (sp, c.body) ∈ prog.swCases) (hreach : prog.reachable sp = true)
+    (he : c.empty = false) (hft : c.ftComment = false) (hn : c.body.compl.n = true) :
+    caseReported (analyze prog) c = true := by
+  unfold caseReported
+  cases hst : stmtsStop (analyze prog) c.body with
+  | false => simp [he, hft]
+  | true => have := C11_case prog hf hnd (sp, c.body) hc hreach hst; rw [hn] at this; cases this
+
+/-- `stopViol` is not empty in general: in `return; if (x) {}` the dead `if` (10) and its block (17) inherit the forced
+end; they are marked `unreachable` and they are unreachable -/
+example :
+    let prog : Program := { isModule := false, items := [.stmt (.ret 0 .nil),
+      .stmt (.ifS 10 (.cons (.expr (.ident "x") .nil) .nil) (.block 17 .nil) none)] }
+    itemsInF prog.items = true ∧ (itemsPositions prog.items).Nodup ∧
+    prog.stopViol (analyze prog) = [10, 17] ∧ (analyze prog).ur 10 = true ∧ prog.reachable 10 = false ∧
+    (analyze prog).ur 17 = true ∧ prog.reachable 17 = false := by decide
+
+/-- getters: `function f() { return 1; }  function g() { if (x) return 1; }` — `f` (body block 13) is not reported and
+its body cannot complete normally; `g` (body block 43) can, and is reported -/
+example :
+    let one : Kids := .cons (.expr .other .nil) .nil
+    let fbody : Stmts := .cons (.ret 15 one) .nil
+    let gbody : Stmts := .cons (.ifS 45 (.cons (.expr (.ident "x") .nil) .nil) (.ret 52 one) none) .nil
+    let prog : Program := { isModule := false, items := [
+      .stmt (.simple 0 (.fnDecl "f") (.cons (.fnScope 0 (.cons (.block 13 fbody) .nil)) .nil)),
+      .stmt (.simple 30 (.fnDecl "g") (.cons (.fnScope 30 (.cons (.block 43 gbody) .nil)) .nil))] }
+    itemsInF prog.items = true ∧ (itemsPositions prog.items).Nodup ∧
+    prog.getters.map (fun g => (g.at_, g.bodyP)) = [(0, 13), (30, 43)] ∧
+    prog.getters.map (fun g => (getterReported (analyze prog) g, g.body.compl.n)) = [(false, false), (true, true)] := by
+  decide
+
+/-- cases: `switch (x) { case 1: return; case 2: foo(); default: bar(); }` — the first body stops and cannot complete
+normally; the second does not stop (and would be reported by `no-fallthrough`) -/
+example :
+    let call : Kids := .cons (.expr .other .nil) .nil
+    let prog : Program := { isModule := false, items := [.stmt (.switchS 0 (.cons (.expr (.ident "x") .nil) .nil)
+      (.cons 13 false call (.cons (.ret 21 .nil) .nil)
+        (.cons 29 false call (.cons (.simple 37 .exprStmt call) .nil)
+          (.cons 44 true .nil (.cons (.simple 53 .exprStmt call) .nil) .nil))))] }
+    itemsInF prog.items = true ∧ (itemsPositions prog.items).Nodup ∧ prog.reachable 0 = true ∧
+    prog.swCases.map (fun c => (c.1, stmtsStop (analyze prog) c.2, c.2.compl.n)) =
+      [(0, true, false), (0, false, true), (0, false, true)] := by
+  decide
 
 end DL.Props.C11
